@@ -70,6 +70,10 @@ static inline sv_t sv_substr(sv_t s, size_t pos, size_t n){
   sv_t r; r.ptr = s.ptr + pos; r.len = (n < s.len - pos) ? n : s.len - pos; return r;
 }
 #define SV_NPOS ((size_t)-1)
+/* string_view::find_first_not_of / find_last_not_of (character set given as a view): library semantics, trusted runtime */
+static inline cc_bool sv_has_char_(sv_t set, char c){ cc_bool f = 0; for (size_t k = 0; k < set.len; ++k) if (set.ptr[k] == c) f = 1; return f; }
+static inline size_t sv_find_first_not_of(sv_t s, sv_t set){ size_t r = SV_NPOS; for (size_t i = 0; i < s.len; ++i) if (r == SV_NPOS && !sv_has_char_(set, s.ptr[i])) r = i; return r; }
+static inline size_t sv_find_last_not_of(sv_t s, sv_t set){ size_t r = SV_NPOS; for (size_t i = 0; i < s.len; ++i) if (!sv_has_char_(set, s.ptr[i])) r = i; return r; }
 
 /* ---------- std::optional<T> ---------- */
 #define CC_DEFINE_OPT(NAME,T) \
